@@ -38,13 +38,28 @@ pub fn map_oracle(v: &mut Visit) -> Vec<(String, String)> {
     if v.live.num_tiles() != v.model.len() {
         bad.push(("count".to_string(), format!("num_tiles() = {}, map has {}", v.live.num_tiles(), v.model.len())));
     }
+    // an operation that is refused (adding empty content) leaves the map as it was
+    for id in ids.iter() {
+        if v.live.add(*id, Vec::new()).is_ok() {
+            bad.push(("refused-add-accepted".to_string(), format!("add_tile({id}, <empty>) succeeded")));
+            continue;
+        }
+        let got = v.live.get(*id);
+        let want = v.model.get(id);
+        if !matches!((&got, want), (Ok(Some(g)), Some(w)) if g == w) && !matches!((&got, want), (Ok(None), None)) {
+            bad.push(("refused-add-changes-map".to_string(), format!("after the refused add_tile({id}, <empty>): lookup({id}) = {:?}, map says {:?}", got.as_ref().map(|o| o.as_ref().map(|b| crate::report::hex(b))), want.map(|b| crate::report::hex(b)))));
+        }
+    }
+    if v.live.num_tiles() != v.model.len() {
+        bad.push(("refused-add-changes-map".to_string(), format!("after refused adds: num_tiles() = {}, map has {}", v.live.num_tiles(), v.model.len())));
+    }
     bad
 }
 
 pub fn run(tier: &str) -> i32 {
     let rep = Report::new("C04", tier, "model_checking");
     let thorough = rep.thorough();
-    rep.rule("explicit-state BFS over histories of add(id,c) / remove(id) / save+reopen(sync|async reader), one search per alphabet variant (see 'searches'): variant 0 = unrelated contents AA, BB(, A); variant 1 = related contents A, A+NUL(, NUL) - proper prefix and suffix, concatenation of two others, trailing zero byte; both to fix-point from all initial states (fresh sync/async per internal compression, three foreign archives over the same contents x both readers, four range-filtered opens); quick only: variant 2 = the three related contents over ids 0,1,2,5 from two fresh objects, all histories of at most 5 operations; every transition executed twice (with and without lookups interleaved between operations); oracle in every state: lookups by id and by coordinates, sorted listing, count against a BTreeMap; non-trivial = states with >=1 tile; distinct = canonical states (hook snapshot + backing digest + flavour)");
+    rep.rule("explicit-state BFS over histories of add(id,c) / remove(id) / save+reopen(sync|async reader), one search per alphabet variant (see 'searches'): variant 0 = unrelated contents AA, BB(, A); variant 1 = related contents A, A+NUL(, NUL) - proper prefix and suffix, concatenation of two others, trailing zero byte; both to fix-point from all initial states (fresh sync/async per internal compression, three foreign archives over the same contents x both readers, four range-filtered opens); quick only: variant 2 = the three related contents over ids 0,1,2,5 from two fresh objects, all histories of at most 5 operations; every transition executed twice (with and without lookups interleaved between operations); oracle in every state: lookups by id and by coordinates, sorted listing, count against a BTreeMap, and the same again after a refused add_tile(id, <empty>) for every id; non-trivial = states with >=1 tile; distinct = canonical states (hook snapshot + backing digest + flavour)");
     rep.assume("state merging: two objects with equal hook snapshots, equal backing bytes and equal API flavour differ only in hash-map iteration order, which no transition or observation used here depends on (tile_ids() is compared sorted); byte-level dependence on iteration order is C16's subject");
     rep.assume("alphabets beyond the stated ids/contents and random long sequences are not explored");
     let cap = if thorough { 3_000_000 } else { 400_000 };
